@@ -834,6 +834,22 @@ pub async fn run_op2(ctx: &Ctx, op: AOp, info: &Rc<TaskInfo>, handle: Handle) {
                 );
             }
             if let Some(mut l0) = sibling {
+                if (op.b >> 2) % 2 == 1 {
+                    // Starting a started listener is refused and must leave no trace.
+                    let r = blocked(info, "BusListener::start", true, l0.start(aldrin_core::BusListenerScope::All)).await;
+                    match r {
+                        Err(aldrin::Error::Shutdown) => return,
+                        Err(_) => ctx.probe("listener-start-refused"),
+                        Ok(()) => {
+                            ctx.log.borrow_mut().violate(
+                                "listener.round-mismatch",
+                                &[crate::model::Prop::C10, crate::model::Prop::C06],
+                                format!("client{}: starting an already started listener succeeded", ctx.client),
+                            );
+                            return;
+                        }
+                    }
+                }
                 // Restarted for current entities: exactly what exists now, nothing stale.
                 if blocked(info, "BusListener::stop", true, l0.stop()).await.is_err() {
                     return;
